@@ -73,7 +73,7 @@ def main():
         if c["kind"] == "pair":
             l, r = recs[c["lk"]], recs[c["rk"]]
             events.append({"case": c["case"], "kind": "pair", "rel": c["rel"], "left": intern(l["output"]),
-                           "right": intern(r["output"]), "cls": "", "obserr": items.err_class(l), "prederr": c["prederr"],
+                           "right": intern(r["output"]), "cls": c.get("cls", ""), "obserr": items.err_class(l), "prederr": c["prederr"],
                            "target": c["left"]["target"], "key": "", "wellformed": True, "accepted": True, "panicked": False})
         else:
             r = recs[c["lk"]]
